@@ -137,6 +137,8 @@ def directed_cases(ctx):
 
 
 def run(ctx):
+    from props import c06
+    c06.stdout_runs(ctx, "C04", ctx.scale(5, 30))
     pipeprop.run(ctx, "C04", FOCUS, oracle, 300, 5000,
                  "random valid command lines with focus on filters, redirect files, discard options, demultiplexing (incl. {name1}/{name2} with "
                  "--discard-untrimmed) and --max-aer, single and paired; non-trivial = distinct case in which at least one read was filtered", nontrivial)
